@@ -23,7 +23,7 @@
      [op |-> "setpa", toks |-> <<..>>]     set_runtime_actions(n)   n pending-action tokens, held by the caller
      [op |-> "settasks", toks |-> <<..>>]  set_nb_tasks(n)          n task tokens, available when the call returned
      [op |-> "addtasks", toks |-> <<..>>]  addto_nb_tasks(+n)       n task tokens, available when the call returned (E2)
-     [op |-> "endtask", tok |-> j]         addto_nb_tasks(-1)       the caller holds (runs) task j
+     [op |-> "endtask", tok |-> j]         addto_nb_tasks(-1)       the caller holds (runs) task j; waits until ready() returned
      [op |-> "addpa", tok |-> j]           addto_runtime_actions(+1), token j held by the caller
      [op |-> "relpa", tok |-> j]           addto_runtime_actions(-1)
      [op |-> "take", tok |-> j]            wait until token j is available, then hold it   (harness only)
@@ -33,8 +33,8 @@
    counted at the fetch_add / cas that publishes the change. *)
 EXTENDS Naturals, Integers, Sequences, FiniteSets, TLC
 CONSTANTS Thr, Prog, Mut
-VARIABLES mon, tasks, pa, ref, cb, cbBy, destroyed, pc, opi, loc, live, avail, rdyDone
-vars == <<mon, tasks, pa, ref, cb, cbBy, destroyed, pc, opi, loc, live, avail, rdyDone>>
+VARIABLES mon, tasks, pa, ref, cb, cbBy, destroyed, pc, opi, loc, live, avail, rdyDone, rdyRet
+vars == <<mon, tasks, pa, ref, cb, cbBy, destroyed, pc, opi, loc, live, avail, rdyDone, rdyRet>>
 
 IsPa(j) == j >= 100
 SeqSet(s) == {s[i] : i \in 1..Len(s)}
@@ -45,26 +45,28 @@ IsOp(t, k) == pc[t] = "idle" /\ HasOp(t) /\ CurOp(t).op = k
 Init == /\ mon = "NOT_READY" /\ tasks = 0 /\ pa = 0 /\ ref = 1 /\ cb = 0 /\ cbBy = 0 /\ destroyed = 0
         /\ pc = [t \in Thr |-> "idle"] /\ opi = [t \in Thr |-> 1]
         /\ loc = [t \in Thr |-> [v |-> 0, ov |-> 0, nbpa |-> 1]]
-        /\ live = {} /\ avail = {} /\ rdyDone = FALSE
+        /\ live = {} /\ avail = {} /\ rdyDone = FALSE /\ rdyRet = FALSE
 
 \* the API call returns: tasks announced by it become runnable (E2); the thread parks at the operation boundary
 Fin(t) == /\ pc' = [pc EXCEPT ![t] = "idle"]
           /\ opi' = [opi EXCEPT ![t] = @ + 1]
           /\ avail' = IF CurOp(t).op \in {"addtasks", "settasks"} THEN avail \cup SeqSet(CurOp(t).toks) ELSE avail
-Goto(t, p) == pc' = [pc EXCEPT ![t] = p] /\ UNCHANGED <<opi, avail>>
+          /\ rdyRet' = (rdyRet \/ CurOp(t).op = "ready")
+Goto(t, p) == pc' = [pc EXCEPT ![t] = p] /\ UNCHANGED <<opi, avail, rdyRet>>
 
 \* ---------------------------------------------------------------- harness-only operations
 Take(t) == /\ IsOp(t, "take") /\ CurOp(t).tok \in avail
            /\ avail' = avail \ {CurOp(t).tok}
            /\ opi' = [opi EXCEPT ![t] = @ + 1]
-           /\ UNCHANGED <<mon, tasks, pa, ref, cb, cbBy, destroyed, pc, loc, live, rdyDone>>
+           /\ UNCHANGED <<mon, tasks, pa, ref, cb, cbBy, destroyed, pc, loc, live, rdyDone, rdyRet>>
 Pass(t) == /\ IsOp(t, "pass")
            /\ avail' = avail \cup {CurOp(t).tok}
            /\ opi' = [opi EXCEPT ![t] = @ + 1]
-           /\ UNCHANGED <<mon, tasks, pa, ref, cb, cbBy, destroyed, pc, loc, live, rdyDone>>
+           /\ UNCHANGED <<mon, tasks, pa, ref, cb, cbBy, destroyed, pc, loc, live, rdyDone, rdyRet>>
 
 \* ---------------------------------------------------------------- from the operation boundary to the first yield point
-BeginTasks(t) == /\ (IsOp(t, "addtasks") \/ IsOp(t, "endtask"))
+\* a task completes only after taskpool_ready() has returned (tasks are not scheduled earlier)
+BeginTasks(t) == /\ (IsOp(t, "addtasks") \/ (IsOp(t, "endtask") /\ rdyRet))
                  /\ loc' = [loc EXCEPT ![t] = [v |-> IF CurOp(t).op = "addtasks" THEN Len(CurOp(t).toks) ELSE -1, ov |-> 0, nbpa |-> 1]]
                  /\ Goto(t, "t_fa")
                  /\ UNCHANGED <<mon, tasks, pa, ref, cb, cbBy, destroyed, live, rdyDone>>
@@ -102,7 +104,7 @@ SetTasksCas(t) == /\ pc[t] = "st_cas"
                                      ELSE IF loc[t].ov > 0 /\ loc[t].v = 0 THEN "t_dec" ELSE "chk")
                           /\ UNCHANGED loc
                      ELSE /\ loc' = [loc EXCEPT ![t].ov = tasks]          \* do { ov = nb_tasks } while( !cas )
-                          /\ UNCHANGED <<tasks, live, pc, opi, avail>>
+                          /\ UNCHANGED <<tasks, live, pc, opi, avail, rdyRet>>
                   /\ UNCHANGED <<mon, pa, ref, cb, cbBy, destroyed, rdyDone>>
 IncPa(t) == /\ pc[t] = "t_inc"
             /\ pa' = pa + 1
@@ -127,7 +129,7 @@ SetPaCas(t) == /\ pc[t] = "sp_cas"
                        /\ loc' = [loc EXCEPT ![t].nbpa = loc[t].v]
                        /\ Goto(t, "chk")
                   ELSE /\ loc' = [loc EXCEPT ![t].ov = pa]
-                       /\ UNCHANGED <<pa, live, pc, opi, avail>>
+                       /\ UNCHANGED <<pa, live, pc, opi, avail, rdyRet>>
                /\ UNCHANGED <<mon, tasks, ref, cb, cbBy, destroyed, rdyDone>>
 
 \* ---------------------------------------------------------------- detection
